@@ -374,8 +374,9 @@ func createSelectFieldFromByItem(p *SelectPlan, item *ast.ByItem) (*ast.SelectFi
 		item.Expr = decorator
 	}
 
+	// the field added for the column is written with the same database and table names as the BY item itself
 	ret := &ast.SelectField{
-		Expr: columnExpr,
+		Expr: item.Expr,
 	}
 	return ret, nil
 }
@@ -815,6 +816,15 @@ func handleBinaryOperationExprMathCompare(p *TableAliasStmtInfo, expr *ast.Binar
 		return false, nil, expr, nil
 	}
 
+	// no bare column on either side (a function call, arithmetic): column names inside the operands still
+	// have to be written with the database and table of the route, no routing is computed from them
+	columnNameRewriter := NewColumnNameRewriteVisitor(p)
+	if n, ok := expr.L.Accept(columnNameRewriter); ok {
+		expr.L = n.(ast.ExprNode)
+	}
+	if n, ok := expr.R.Accept(columnNameRewriter); ok {
+		expr.R = n.(ast.ExprNode)
+	}
 	return false, nil, expr, nil
 }
 
